@@ -22,12 +22,19 @@ def resWrite (p : Res Rpu) (w : Rpu → Res Bytes) : String :=
   | .error => "err"
   | .panic => "panic"
 
+def cls {α} (r : Res α) : String :=
+  match r with | .ok _ => "ok" | .error => "err" | .panic => "panic"
+
 def run : List String → String
   | ["rpu.json", h] => resJson (parseRpuEntry (unhex h))
   | ["nalu.json", h] => resJson (parseNalu (unhex h))
   | ["rpu.write", h] => resWrite (parseRpuEntry (unhex h)) writeRpu
   | ["nalu.write", h] => resWrite (parseNalu (unhex h)) writeNalu
   | ["rpu.class", h] => (match parseRpuEntry (unhex h) with | .ok _ => "ok" | .error => "err" | .panic => "panic")
+  | ["c08.rpu", h] => cls (parseRpuEntry (unhex h))
+  | ["c08.nalu", h] => cls (parseNalu (unhex h))
+  | ["c08.capi", "rpu", h] => cls (parseRpuEntry (unhex h))
+  | ["c08.capi", "nalu", h] => cls (parseNalu (unhex h))
   | _ => "bad-op"
 
 end Driver.RpuOps
